@@ -43,6 +43,20 @@ PopCnt16(x) == IF x = 0 THEN 0 ELSE (x % 2) + PopCnt16(x \div 2)
 RegIn(regs, r) == (regs \div 2^r) % 2 = 1
 
 -----------------------------------------------------------------------------
+(* multiply / media operand records (Media.tla) *)
+Any15(S) == 15 \in S
+MUL(enc, op, d, n, m, a, dhi, dlo, S, unp) ==
+  [k |-> "mul", enc |-> enc, op |-> op, d |-> d, n |-> n, m |-> m, a |-> a, dhi |-> dhi, dlo |-> dlo, S |-> S, unp |-> unp]
+HMUL(enc, op, d, n, m, a, dhi, dlo, nh, mh, swap, round, unp) ==
+  [k |-> "hmul", enc |-> enc, op |-> op, d |-> d, n |-> n, m |-> m, a |-> a, dhi |-> dhi, dlo |-> dlo, nh |-> nh, mh |-> mh,
+   swap |-> swap, round |-> round, unp |-> unp]
+PAR(enc, pfx, op, d, n, m, unp) == [k |-> "par", enc |-> enc, pfx |-> pfx, op |-> op, d |-> d, n |-> n, m |-> m, unp |-> unp]
+EXT(enc, signed, w, rot, d, n, m, unp) ==
+  [k |-> "misc", enc |-> enc, op |-> "EXT", signed |-> signed, w |-> w, rot |-> rot, d |-> d, n |-> n, m |-> m, unp |-> unp]
+MISC1(enc, op, d, m, unp) == [k |-> "misc", enc |-> enc, op |-> op, d |-> d, m |-> m, unp |-> unp]
+ParOps == <<"ADD16", "ASX", "SAX", "SUB16", "ADD8", "x", "x", "SUB8">>
+
+-----------------------------------------------------------------------------
 (* ARM *)
 ArmDPReg(w) ==
   LET opc == Slice(w, 24, 21)  S == Bit(w, 20) = 1  n == Slice(w, 19, 16)  d == Slice(w, 15, 12)
@@ -139,6 +153,95 @@ ArmLSM(w, dx) ==
      ELSE LSM(nm \o "_A1", L = 1, n, regs, W = 1, am,
               n = 15 \/ PopCnt16(regs) < 1 \/ (L = 1 /\ W = 1 /\ RegIn(regs, n) /\ dx.arch >= 7))
 
+
+\* A5.2.5 multiply and multiply accumulate
+ArmMul(w, dx) ==
+  LET op == Slice(w, 23, 21)  S == Bit(w, 20) = 1
+      d == Slice(w, 19, 16)  a == Slice(w, 15, 12)  m == Slice(w, 11, 8)  n == Slice(w, 3, 0)
+      longunp == Any15({d, a, m, n}) \/ d = a \/ (dx.arch < 6 /\ (d = n \/ a = n))
+  IN CASE op = 0 -> MUL("MUL_A1", "MUL", d, n, m, 0, 0, 0, S, Any15({d, m, n}) \/ (dx.arch < 6 /\ d = n) \/ a # 0)
+       [] op = 1 -> MUL("MLA_A1", "MLA", d, n, m, a, 0, 0, S, Any15({d, m, n, a}) \/ (dx.arch < 6 /\ d = n))
+       [] op = 2 -> IF S THEN Undef ELSE MUL("UMAAL_A1", "UMAAL", 0, n, m, 0, d, a, FALSE, Any15({d, a, m, n}) \/ d = a)
+       [] op = 3 -> IF S THEN Undef ELSE MUL("MLS_A1", "MLS", d, n, m, a, 0, 0, FALSE, Any15({d, m, n, a}))
+       [] op = 4 -> MUL("UMULL_A1", "UMULL", 0, n, m, 0, d, a, S, longunp)
+       [] op = 5 -> MUL("UMLAL_A1", "UMLAL", 0, n, m, 0, d, a, S, longunp)
+       [] op = 6 -> MUL("SMULL_A1", "SMULL", 0, n, m, 0, d, a, S, longunp)
+       [] op = 7 -> MUL("SMLAL_A1", "SMLAL", 0, n, m, 0, d, a, S, longunp)
+\* A5.2.7 halfword multiply
+ArmHMul(w, dx) ==
+  LET op1 == Slice(w, 22, 21)  d == Slice(w, 19, 16)  a == Slice(w, 15, 12)  m == Slice(w, 11, 8)  n == Slice(w, 3, 0)
+      nh == Bit(w, 5) = 1  mh == Bit(w, 6) = 1
+  IN CASE op1 = 0 -> HMUL("SMLAxy_A1", "SMLAxy", d, n, m, a, 0, 0, nh, mh, FALSE, FALSE, Any15({d, n, m, a}))
+       [] op1 = 1 -> IF ~nh THEN HMUL("SMLAWy_A1", "SMLAWy", d, n, m, a, 0, 0, FALSE, mh, FALSE, FALSE, Any15({d, n, m, a}))
+                     ELSE HMUL("SMULWy_A1", "SMULWy", d, n, m, 0, 0, 0, FALSE, mh, FALSE, FALSE, Any15({d, n, m}) \/ a # 0)
+       [] op1 = 2 -> HMUL("SMLALxy_A1", "SMLALxy", 0, n, m, 0, d, a, nh, mh, FALSE, FALSE, Any15({d, n, m, a}) \/ d = a)
+       [] op1 = 3 -> HMUL("SMULxy_A1", "SMULxy", d, n, m, 0, 0, 0, nh, mh, FALSE, FALSE, Any15({d, n, m}) \/ a # 0)
+\* A5.4 media instructions
+ArmMedia(w, dx) ==
+  LET op1 == Slice(w, 24, 20)  op2 == Slice(w, 7, 5)
+      n == Slice(w, 19, 16)  d == Slice(w, 15, 12)  m == Slice(w, 3, 0)  rs == Slice(w, 11, 8)
+  IN IF op1 \div 8 = 0 THEN                                     \* parallel add/sub: 000xx signed, 001xx unsigned
+       LET pp == op1 % 4  uns == (op1 \div 4) % 2 = 1
+           pfx == IF uns THEN <<"x", "U", "UQ", "UH">>[pp + 1] ELSE <<"x", "S", "Q", "SH">>[pp + 1]
+       IN IF pp = 0 \/ ParOps[op2 + 1] = "x" THEN Undef
+          ELSE PAR(pfx \o ParOps[op2 + 1] \o "_A1", pfx, ParOps[op2 + 1], d, n, m, Any15({d, n, m}) \/ rs # 15)
+     ELSE IF op1 \div 8 = 1 THEN                                \* 01xxx packing, unpacking, saturation, reversal
+       LET sub == op1 % 8 IN
+       IF sub = 0 /\ op2 % 2 = 0 THEN
+            [k |-> "misc", enc |-> "PKH_A1", op |-> "PKH", d |-> d, n |-> n, m |-> m, tb |-> Bit(w, 6) = 1,
+             st |-> ImmShift(Bit(w, 6) * 2, Slice(w, 11, 7))[1], sn |-> ImmShift(Bit(w, 6) * 2, Slice(w, 11, 7))[2],
+             unp |-> Any15({d, n, m})]
+       ELSE IF sub = 0 /\ op2 = 5 THEN [k |-> "misc", enc |-> "SEL_A1", op |-> "SEL", d |-> d, n |-> n, m |-> m, unp |-> Any15({d, n, m}) \/ rs # 15]
+       ELSE IF sub \in {2, 3} /\ op2 % 2 = 0 THEN
+            [k |-> "sat", enc |-> "SSAT_A1", unsigned |-> FALSE, dual |-> FALSE, satto |-> Slice(w, 20, 16) + 1, d |-> d, n |-> m,
+             st |-> ImmShift(Bit(w, 6) * 2, Slice(w, 11, 7))[1], sn |-> ImmShift(Bit(w, 6) * 2, Slice(w, 11, 7))[2], unp |-> Any15({d, m})]
+       ELSE IF sub \in {6, 7} /\ op2 % 2 = 0 THEN
+            [k |-> "sat", enc |-> "USAT_A1", unsigned |-> TRUE, dual |-> FALSE, satto |-> Slice(w, 20, 16), d |-> d, n |-> m,
+             st |-> ImmShift(Bit(w, 6) * 2, Slice(w, 11, 7))[1], sn |-> ImmShift(Bit(w, 6) * 2, Slice(w, 11, 7))[2], unp |-> Any15({d, m})]
+       ELSE IF sub = 2 /\ op2 = 1 THEN
+            [k |-> "sat", enc |-> "SSAT16_A1", unsigned |-> FALSE, dual |-> TRUE, satto |-> Slice(w, 19, 16) + 1, d |-> d, n |-> m,
+             st |-> "LSL", sn |-> 0, unp |-> Any15({d, m}) \/ rs # 15]
+       ELSE IF sub = 6 /\ op2 = 1 THEN
+            [k |-> "sat", enc |-> "USAT16_A1", unsigned |-> TRUE, dual |-> TRUE, satto |-> Slice(w, 19, 16), d |-> d, n |-> m,
+             st |-> "LSL", sn |-> 0, unp |-> Any15({d, m}) \/ rs # 15]
+       ELSE IF op2 = 3 /\ sub \in {0, 2, 3, 4, 6, 7} THEN
+            LET sg == sub < 4
+                wd == CASE sub % 4 = 0 -> "B16" [] sub % 4 = 2 -> "B" [] sub % 4 = 3 -> "H"
+            IN EXT((IF sg THEN "SXT" ELSE "UXT") \o (IF n = 15 THEN "" ELSE "A") \o wd \o "_A1", sg, wd, 8 * Slice(w, 11, 10), d, n, m,
+                   Any15({d, m}) \/ Slice(w, 9, 8) # 0)
+       ELSE IF sub = 3 /\ op2 = 1 THEN MISC1("REV_A1", "REV", d, m, Any15({d, m}) \/ n # 15 \/ rs # 15)
+       ELSE IF sub = 3 /\ op2 = 5 THEN MISC1("REV16_A1", "REV16", d, m, Any15({d, m}) \/ n # 15 \/ rs # 15)
+       ELSE IF sub = 7 /\ op2 = 1 THEN MISC1("RBIT_A1", "RBIT", d, m, Any15({d, m}) \/ n # 15 \/ rs # 15)
+       ELSE IF sub = 7 /\ op2 = 5 THEN MISC1("REVSH_A1", "REVSH", d, m, Any15({d, m}) \/ n # 15 \/ rs # 15)
+       ELSE Undef
+     ELSE IF op1 \div 8 = 2 THEN                                \* 10xxx signed multiplies, divide
+       LET sub == op1 % 8  dd == n  aa == d  mm == rs  nn == m  sw == Bit(w, 5) = 1 IN     \* Rd = 19:16, Ra = 15:12, Rm = 11:8, Rn = 3:0
+       CASE sub = 0 /\ op2 \div 2 = 0 -> IF aa = 15 THEN HMUL("SMUAD_A1", "SMUAD", dd, nn, mm, 0, 0, 0, FALSE, FALSE, sw, FALSE, Any15({dd, nn, mm}))
+                                          ELSE HMUL("SMLAD_A1", "SMLAD", dd, nn, mm, aa, 0, 0, FALSE, FALSE, sw, FALSE, Any15({dd, nn, mm}))
+         [] sub = 0 /\ op2 \div 2 = 1 -> IF aa = 15 THEN HMUL("SMUSD_A1", "SMUSD", dd, nn, mm, 0, 0, 0, FALSE, FALSE, sw, FALSE, Any15({dd, nn, mm}))
+                                          ELSE HMUL("SMLSD_A1", "SMLSD", dd, nn, mm, aa, 0, 0, FALSE, FALSE, sw, FALSE, Any15({dd, nn, mm}))
+         [] sub = 1 /\ op2 = 0 -> [k |-> "div", enc |-> "SDIV_A1", signed |-> TRUE, d |-> dd, n |-> nn, m |-> mm, unp |-> Any15({dd, nn, mm}) \/ aa # 15]
+         [] sub = 3 /\ op2 = 0 -> [k |-> "div", enc |-> "UDIV_A1", signed |-> FALSE, d |-> dd, n |-> nn, m |-> mm, unp |-> Any15({dd, nn, mm}) \/ aa # 15]
+         [] sub = 4 /\ op2 \div 2 = 0 -> HMUL("SMLALD_A1", "SMLALD", 0, nn, mm, 0, dd, aa, FALSE, FALSE, sw, FALSE, Any15({dd, aa, nn, mm}) \/ dd = aa)
+         [] sub = 4 /\ op2 \div 2 = 1 -> HMUL("SMLSLD_A1", "SMLSLD", 0, nn, mm, 0, dd, aa, FALSE, FALSE, sw, FALSE, Any15({dd, aa, nn, mm}) \/ dd = aa)
+         [] sub = 5 /\ op2 \div 2 = 0 -> IF aa = 15 THEN HMUL("SMMUL_A1", "SMMUL", dd, nn, mm, 0, 0, 0, FALSE, FALSE, FALSE, sw, Any15({dd, nn, mm}))
+                                          ELSE HMUL("SMMLA_A1", "SMMLA", dd, nn, mm, aa, 0, 0, FALSE, FALSE, FALSE, sw, Any15({dd, nn, mm}))
+         [] sub = 5 /\ op2 \div 2 = 3 -> HMUL("SMMLS_A1", "SMMLS", dd, nn, mm, aa, 0, 0, FALSE, FALSE, FALSE, sw, Any15({dd, nn, mm, aa}))
+         [] OTHER -> Undef
+     ELSE                                                        \* 11xxx
+       LET sub == op1 % 8 IN
+       IF sub = 0 /\ op2 = 0 THEN
+            [k |-> "misc", enc |-> IF d = 15 THEN "USAD8_A1" ELSE "USADA8_A1", op |-> IF d = 15 THEN "USAD8" ELSE "USADA8",
+             d |-> n, a |-> d, m |-> rs, n |-> m, unp |-> Any15({n, rs, m})]
+       ELSE IF sub \in {2, 3} /\ op2 % 4 = 2 THEN
+            [k |-> "misc", enc |-> "SBFX_A1", op |-> "SBFX", d |-> d, n |-> m, lsb |-> Slice(w, 11, 7), widthm1 |-> Slice(w, 20, 16), unp |-> Any15({d, m})]
+       ELSE IF sub \in {6, 7} /\ op2 % 4 = 2 THEN
+            [k |-> "misc", enc |-> "UBFX_A1", op |-> "UBFX", d |-> d, n |-> m, lsb |-> Slice(w, 11, 7), widthm1 |-> Slice(w, 20, 16), unp |-> Any15({d, m})]
+       ELSE IF sub \in {4, 5} /\ op2 % 4 = 0 THEN
+            IF m = 15 THEN [k |-> "misc", enc |-> "BFC_A1", op |-> "BFC", d |-> d, lsb |-> Slice(w, 11, 7), msb |-> Slice(w, 20, 16), unp |-> d = 15]
+            ELSE [k |-> "misc", enc |-> "BFI_A1", op |-> "BFI", d |-> d, n |-> m, lsb |-> Slice(w, 11, 7), msb |-> Slice(w, 20, 16), unp |-> d = 15]
+       ELSE Undef
+
 ArmMisc(w) ==
   LET op2 == Slice(w, 6, 4)  op == Slice(w, 22, 21)  m == Slice(w, 3, 0)
       sbo == Slice(w, 19, 8) = 4095
@@ -152,6 +255,9 @@ ArmMisc(w) ==
        [] op2 = 7 /\ op = 3 -> [k |-> "smc", enc |-> "SMC_A1", unp |-> Slice(w, 19, 8) # 0]
        \* ERET A1 belongs to the Virtualization Extensions, which the emulator documents as not implemented in ARM state
        [] op2 = 6 /\ op = 3 -> Unspec("arm-eret-virt-ext")
+       [] op2 = 1 /\ op = 3 -> MISC1("CLZ_A1", "CLZ", Slice(w, 15, 12), m, Any15({Slice(w, 15, 12), m}) \/ Slice(w, 19, 16) # 15 \/ Slice(w, 11, 8) # 15)
+       [] op2 = 5 -> [k |-> "qarith", enc |-> <<"QADD_A1", "QSUB_A1", "QDADD_A1", "QDSUB_A1">>[op + 1], double |-> op \div 2 = 1, sub |-> op % 2 = 1,
+                      d |-> Slice(w, 15, 12), n |-> Slice(w, 19, 16), m |-> m, unp |-> Any15({Slice(w, 15, 12), Slice(w, 19, 16), m}) \/ Slice(w, 11, 8) # 0]
        [] op2 = 1 /\ op = 1 -> [k |-> "bx", enc |-> "BX_A1", m |-> m, unp |-> ~sbo]
        [] op2 = 3 /\ op = 1 -> [k |-> "blxr", enc |-> "BLX_r_A1", m |-> m, unp |-> m = 15 \/ ~sbo]
        [] OTHER -> Unspec("arm-misc")
@@ -163,10 +269,10 @@ ArmDPMisc(w, dx) ==
      THEN IF ~is10xx0
           THEN IF op2 % 2 = 0 THEN ArmDPReg(w)
                ELSE IF op2 \div 8 = 0 THEN ArmDPRsr(w)
-               ELSE IF op2 = 9 THEN Unspec("arm-mul-sync")
+               ELSE IF op2 = 9 THEN (IF op1 \div 16 = 0 THEN ArmMul(w, dx) ELSE Unspec("arm-sync"))
                ELSE ArmExtraLS(w, dx)
           ELSE IF op2 \div 8 = 0 THEN ArmMisc(w)
-               ELSE IF op2 % 2 = 0 THEN Unspec("arm-hmul")
+               ELSE IF op2 % 2 = 0 THEN ArmHMul(w, dx)
                ELSE IF op2 = 9 THEN Unspec("arm-sync")
                ELSE ArmExtraLS(w, dx)
      ELSE IF ~is10xx0 THEN ArmDPImm(w)
@@ -218,7 +324,7 @@ ArmDecode(w, dx) ==
   IF cond = 15 THEN ArmUncond(w)
   ELSE CASE op1 \in {0, 1} -> ArmDPMisc(w, dx)
          [] op1 = 2 -> ArmLSWord(w, dx)
-         [] op1 = 3 -> IF Bit(w, 4) = 0 THEN ArmLSWord(w, dx) ELSE Unspec("arm-media")
+         [] op1 = 3 -> IF Bit(w, 4) = 0 THEN ArmLSWord(w, dx) ELSE ArmMedia(w, dx)
          [] op1 \in {4, 5} -> ArmBranchBlock(w, dx)
          [] op1 \in {6, 7} -> IF Slice(w, 25, 24) = 3 THEN [k |-> "svc", enc |-> "SVC_A1", imm |-> Lo(w), unp |-> FALSE]
                                ELSE Unspec("arm-coproc")
@@ -262,7 +368,7 @@ T16DP(h, dx) ==
        [] opc = 10 -> DP("CMP_r_T1", "CMP", 0, rdn, TRUE, LowReg(rm), FALSE)
        [] opc = 11 -> DP("CMN_r_T1", "CMN", 0, rdn, TRUE, LowReg(rm), FALSE)
        [] opc = 12 -> DP("ORR_r_T1", "ORR", rdn, rdn, notIT, LowReg(rm), FALSE)
-       [] opc = 13 -> Unspec("t16-mul")
+       [] opc = 13 -> MUL("MUL_T1", "MUL", rdn, rm, rdn, 0, 0, 0, notIT, dx.arch < 6 /\ rdn = rm)
        [] opc = 14 -> DP("BIC_r_T1", "BIC", rdn, rdn, notIT, LowReg(rm), FALSE)
        [] opc = 15 -> DP("MVN_r_T1", "MVN", rdn, 0, notIT, LowReg(rm), FALSE)
 
@@ -305,6 +411,10 @@ T16Misc(h, dx) ==
     [] Bits(h, 10, 10) = 0 /\ Bits(h, 8, 8) = 1 ->
          [k |-> "cbz", enc |-> "CBZ_T1", n |-> Bits(h, 2, 0), nonzero |-> Bits(h, 11, 11) = 1,
           imm |-> <<0, (Bits(h, 9, 9) * 32 + Bits(h, 7, 3)) * 2>>, unp |-> InITBlock(dx.it)]
+    [] Bits(h, 11, 8) = 2 -> LET op == Bits(h, 7, 6) IN
+         EXT(<<"SXTH_T1", "SXTB_T1", "UXTH_T1", "UXTB_T1">>[op + 1], op < 2, IF op % 2 = 0 THEN "H" ELSE "B", 0, Bits(h, 2, 0), 15, Bits(h, 5, 3), FALSE)
+    [] Bits(h, 11, 8) = 10 /\ Bits(h, 7, 6) # 2 -> LET op == Bits(h, 7, 6) IN
+         MISC1(<<"REV_T1", "REV16_T1", "x", "REVSH_T1">>[op + 1], <<"REV", "REV16", "x", "REVSH">>[op + 1], Bits(h, 2, 0), Bits(h, 5, 3), FALSE)
     [] Bits(h, 11, 9) = 2 -> LSM("PUSH_T1", FALSE, 13, Bits(h, 8, 8) * 16384 + Bits(h, 7, 0), TRUE, "DB",
                                  Bits(h, 8, 0) = 0)
     [] Bits(h, 11, 9) = 6 -> LSM("POP_T1", TRUE, 13, Bits(h, 8, 8) * 32768 + Bits(h, 7, 0), TRUE, "IA",
@@ -376,7 +486,12 @@ T32DPModImm(w) ==
 T32DPShiftedReg(w) ==
   LET o == Slice(w, 24, 21)  S == Bit(w, 20) = 1  n == Slice(w, 19, 16)  d == Slice(w, 11, 8)
       sh == ImmShift(Slice(w, 5, 4), Slice(w, 14, 12) * 4 + Slice(w, 7, 6))
-  IN IF o = 6 THEN Unspec("t32-pkh")
+  IN IF o = 6 THEN
+       (IF S \/ Bit(w, 4) = 1 THEN Undef
+        ELSE [k |-> "misc", enc |-> "PKH_T1", op |-> "PKH", d |-> d, n |-> n, m |-> Slice(w, 3, 0), tb |-> Bit(w, 5) = 1,
+              st |-> ImmShift(Bit(w, 5) * 2, Slice(w, 14, 12) * 4 + Slice(w, 7, 6))[1],
+              sn |-> ImmShift(Bit(w, 5) * 2, Slice(w, 14, 12) * 4 + Slice(w, 7, 6))[2],
+              unp |-> BadReg(d) \/ BadReg(n) \/ BadReg(Slice(w, 3, 0))])
      ELSE T32DPCommon("_r_T32", o, S, n, d, RegO2(Slice(w, 3, 0), sh), TRUE)
 
 T32DPPlainImm(w) ==
@@ -389,8 +504,98 @@ T32DPPlainImm(w) ==
                     ELSE DP("SUBW_T4", "SUB", d, n, FALSE, ImmO2(imm12), (d = 13 /\ n # 13) \/ d = 15)
        [] o = 4  -> [k |-> "movw", enc |-> "MOVW_T3", d |-> d, imm16 |-> imm16, unp |-> BadReg(d)]
        [] o = 12 -> [k |-> "movt", enc |-> "MOVT_T1", d |-> d, imm16 |-> imm16, unp |-> BadReg(d)]
-       [] OTHER  -> Unspec("t32-sat-bitfield")
+       [] o \in {16, 18} ->
+            LET sh == ImmShift(Bit(w, 21) * 2, Slice(w, 14, 12) * 4 + Slice(w, 7, 6)) IN
+            IF o = 18 /\ Slice(w, 14, 12) = 0 /\ Slice(w, 7, 6) = 0
+            THEN [k |-> "sat", enc |-> "SSAT16_T1", unsigned |-> FALSE, dual |-> TRUE, satto |-> Slice(w, 3, 0) + 1, d |-> d, n |-> n,
+                  st |-> "LSL", sn |-> 0, unp |-> BadReg(d) \/ BadReg(n) \/ Slice(w, 5, 4) # 0 \/ Bit(w, 26) # 0]
+            ELSE [k |-> "sat", enc |-> "SSAT_T1", unsigned |-> FALSE, dual |-> FALSE, satto |-> Slice(w, 4, 0) + 1, d |-> d, n |-> n,
+                  st |-> sh[1], sn |-> sh[2], unp |-> BadReg(d) \/ BadReg(n) \/ Bit(w, 5) # 0 \/ Bit(w, 26) # 0]
+       [] o \in {24, 26} ->
+            LET sh == ImmShift(Bit(w, 21) * 2, Slice(w, 14, 12) * 4 + Slice(w, 7, 6)) IN
+            IF o = 26 /\ Slice(w, 14, 12) = 0 /\ Slice(w, 7, 6) = 0
+            THEN [k |-> "sat", enc |-> "USAT16_T1", unsigned |-> TRUE, dual |-> TRUE, satto |-> Slice(w, 3, 0), d |-> d, n |-> n,
+                  st |-> "LSL", sn |-> 0, unp |-> BadReg(d) \/ BadReg(n) \/ Slice(w, 5, 4) # 0 \/ Bit(w, 26) # 0]
+            ELSE [k |-> "sat", enc |-> "USAT_T1", unsigned |-> TRUE, dual |-> FALSE, satto |-> Slice(w, 4, 0), d |-> d, n |-> n,
+                  st |-> sh[1], sn |-> sh[2], unp |-> BadReg(d) \/ BadReg(n)]
+       [] o = 20 -> [k |-> "misc", enc |-> "SBFX_T1", op |-> "SBFX", d |-> d, n |-> n, lsb |-> Slice(w, 14, 12) * 4 + Slice(w, 7, 6),
+                     widthm1 |-> Slice(w, 4, 0), unp |-> BadReg(d) \/ BadReg(n)]
+       [] o = 28 -> [k |-> "misc", enc |-> "UBFX_T1", op |-> "UBFX", d |-> d, n |-> n, lsb |-> Slice(w, 14, 12) * 4 + Slice(w, 7, 6),
+                     widthm1 |-> Slice(w, 4, 0), unp |-> BadReg(d) \/ BadReg(n)]
+       [] o = 22 -> IF n = 15 THEN [k |-> "misc", enc |-> "BFC_T1", op |-> "BFC", d |-> d, lsb |-> Slice(w, 14, 12) * 4 + Slice(w, 7, 6),
+                                    msb |-> Slice(w, 4, 0), unp |-> BadReg(d)]
+                    ELSE [k |-> "misc", enc |-> "BFI_T1", op |-> "BFI", d |-> d, n |-> n, lsb |-> Slice(w, 14, 12) * 4 + Slice(w, 7, 6),
+                          msb |-> Slice(w, 4, 0), unp |-> BadReg(d) \/ n = 13]
+       [] OTHER  -> Undef
 
+
+
+\* A6.3.12 data-processing (register), A6.3.13-15 parallel add/sub and miscellaneous operations
+T32DPReg(w, dx) ==
+  LET op1 == Slice(w, 23, 20)  n == Slice(w, 19, 16)  d == Slice(w, 11, 8)  op2 == Slice(w, 7, 4)  m == Slice(w, 3, 0)
+      br == BadReg(d) \/ BadReg(m)
+  IN IF Slice(w, 15, 12) # 15 THEN Undef
+     ELSE IF op1 \div 8 = 0 /\ op2 = 0 THEN
+          DP(<<"LSL", "LSR", "ASR", "ROR">>[(op1 \div 2) + 1] \o "_r_T2", "MOV", d, 0, op1 % 2 = 1,
+             [t |-> "rsr", m |-> n, st |-> SRNames[(op1 \div 2) + 1], rs |-> m], br \/ BadReg(n))
+     ELSE IF op1 \div 8 = 0 /\ op2 \div 8 = 1 THEN
+          IF op1 > 5 THEN Undef
+          ELSE LET sg == op1 % 2 = 0
+                   wd == CASE op1 \div 2 = 0 -> "H" [] op1 \div 2 = 1 -> "B16" [] op1 \div 2 = 2 -> "B"
+               IN EXT((IF sg THEN "SXT" ELSE "UXT") \o (IF n = 15 THEN "" ELSE "A") \o wd \o "_T", sg, wd, 8 * Slice(w, 5, 4), d, n, m,
+                      br \/ n = 13 \/ Bit(w, 6) # 0)
+     ELSE IF op1 \div 8 = 1 /\ op2 \div 8 = 0 THEN
+          LET uns == op2 \div 4 = 1  pp == op2 % 4
+              pfx == IF uns THEN <<"U", "UQ", "UH", "x">>[pp + 1] ELSE <<"S", "Q", "SH", "x">>[pp + 1]
+              o == CASE op1 % 8 = 1 -> "ADD16" [] op1 % 8 = 2 -> "ASX" [] op1 % 8 = 6 -> "SAX" [] op1 % 8 = 5 -> "SUB16"
+                     [] op1 % 8 = 0 -> "ADD8" [] op1 % 8 = 4 -> "SUB8" [] OTHER -> "x"
+          IN IF pfx = "x" \/ o = "x" THEN Undef ELSE PAR(pfx \o o \o "_T1", pfx, o, d, n, m, br \/ BadReg(n))
+     ELSE IF op1 \div 4 = 2 /\ op2 \div 4 = 2 THEN
+          LET q == op2 % 4 IN
+          CASE op1 = 8 -> [k |-> "qarith", enc |-> <<"QADD_T1", "QDADD_T1", "QSUB_T1", "QDSUB_T1">>[q + 1], double |-> q % 2 = 1, sub |-> q \div 2 = 1,
+                           d |-> d, n |-> n, m |-> m, unp |-> br \/ BadReg(n)]
+            [] op1 = 9 -> MISC1(<<"REV_T2", "REV16_T2", "RBIT_T1", "REVSH_T2">>[q + 1], <<"REV", "REV16", "RBIT", "REVSH">>[q + 1], d, m, br \/ n # m)
+            [] op1 = 10 -> IF q = 0 THEN [k |-> "misc", enc |-> "SEL_T1", op |-> "SEL", d |-> d, n |-> n, m |-> m, unp |-> br \/ BadReg(n)] ELSE Undef
+            [] op1 = 11 -> IF q = 0 THEN MISC1("CLZ_T1", "CLZ", d, m, br \/ n # m) ELSE Undef
+     ELSE Undef
+\* A6.3.16 multiply, multiply accumulate, absolute difference
+T32Mul(w, dx) ==
+  LET op1 == Slice(w, 22, 20)  n == Slice(w, 19, 16)  a == Slice(w, 15, 12)  d == Slice(w, 11, 8)  op2 == Slice(w, 5, 4)  m == Slice(w, 3, 0)
+      br == BadReg(d) \/ BadReg(n) \/ BadReg(m)  noacc == a = 15
+      hi2 == op2 \div 2 = 1  lo2 == op2 % 2 = 1
+  IN IF Slice(w, 7, 6) # 0 THEN Undef
+     ELSE CASE op1 = 0 /\ op2 = 0 -> IF noacc THEN MUL("MUL_T2", "MUL", d, n, m, 0, 0, 0, FALSE, br) ELSE MUL("MLA_T1", "MLA", d, n, m, a, 0, 0, FALSE, br \/ a = 13)
+            [] op1 = 0 /\ op2 = 1 -> MUL("MLS_T1", "MLS", d, n, m, a, 0, 0, FALSE, br \/ BadReg(a))
+            [] op1 = 1 -> IF noacc THEN HMUL("SMULxy_T1", "SMULxy", d, n, m, 0, 0, 0, hi2, lo2, FALSE, FALSE, br)
+                          ELSE HMUL("SMLAxy_T1", "SMLAxy", d, n, m, a, 0, 0, hi2, lo2, FALSE, FALSE, br \/ a = 13)
+            [] op1 = 2 /\ ~hi2 -> IF noacc THEN HMUL("SMUAD_T1", "SMUAD", d, n, m, 0, 0, 0, FALSE, FALSE, lo2, FALSE, br)
+                                  ELSE HMUL("SMLAD_T1", "SMLAD", d, n, m, a, 0, 0, FALSE, FALSE, lo2, FALSE, br \/ a = 13)
+            [] op1 = 3 /\ ~hi2 -> IF noacc THEN HMUL("SMULWy_T1", "SMULWy", d, n, m, 0, 0, 0, FALSE, lo2, FALSE, FALSE, br)
+                                  ELSE HMUL("SMLAWy_T1", "SMLAWy", d, n, m, a, 0, 0, FALSE, lo2, FALSE, FALSE, br \/ a = 13)
+            [] op1 = 4 /\ ~hi2 -> IF noacc THEN HMUL("SMUSD_T1", "SMUSD", d, n, m, 0, 0, 0, FALSE, FALSE, lo2, FALSE, br)
+                                  ELSE HMUL("SMLSD_T1", "SMLSD", d, n, m, a, 0, 0, FALSE, FALSE, lo2, FALSE, br \/ a = 13)
+            [] op1 = 5 /\ ~hi2 -> IF noacc THEN HMUL("SMMUL_T1", "SMMUL", d, n, m, 0, 0, 0, FALSE, FALSE, FALSE, lo2, br)
+                                  ELSE HMUL("SMMLA_T1", "SMMLA", d, n, m, a, 0, 0, FALSE, FALSE, FALSE, lo2, br \/ a = 13)
+            [] op1 = 6 /\ ~hi2 -> HMUL("SMMLS_T1", "SMMLS", d, n, m, a, 0, 0, FALSE, FALSE, FALSE, lo2, br \/ BadReg(a))
+            [] op1 = 7 /\ op2 = 0 -> [k |-> "misc", enc |-> IF noacc THEN "USAD8_T1" ELSE "USADA8_T1", op |-> IF noacc THEN "USAD8" ELSE "USADA8",
+                                      d |-> d, a |-> a, m |-> m, n |-> n, unp |-> br \/ a = 13]
+            [] OTHER -> Undef
+\* A6.3.17 long multiply, long multiply accumulate, divide
+T32LongMul(w, dx) ==
+  LET op1 == Slice(w, 22, 20)  n == Slice(w, 19, 16)  lo == Slice(w, 15, 12)  hi == Slice(w, 11, 8)  op2 == Slice(w, 7, 4)  m == Slice(w, 3, 0)
+      br == BadReg(lo) \/ BadReg(hi) \/ BadReg(n) \/ BadReg(m) \/ hi = lo
+      brd == BadReg(hi) \/ BadReg(n) \/ BadReg(m)
+  IN CASE op1 = 0 /\ op2 = 0 -> MUL("SMULL_T1", "SMULL", 0, n, m, 0, hi, lo, FALSE, br)
+       [] op1 = 1 /\ op2 = 15 -> [k |-> "div", enc |-> "SDIV_T1", signed |-> TRUE, d |-> hi, n |-> n, m |-> m, unp |-> brd \/ lo # 15]
+       [] op1 = 2 /\ op2 = 0 -> MUL("UMULL_T1", "UMULL", 0, n, m, 0, hi, lo, FALSE, br)
+       [] op1 = 3 /\ op2 = 15 -> [k |-> "div", enc |-> "UDIV_T1", signed |-> FALSE, d |-> hi, n |-> n, m |-> m, unp |-> brd \/ lo # 15]
+       [] op1 = 4 /\ op2 = 0 -> MUL("SMLAL_T1", "SMLAL", 0, n, m, 0, hi, lo, FALSE, br)
+       [] op1 = 4 /\ op2 \div 4 = 2 -> HMUL("SMLALxy_T1", "SMLALxy", 0, n, m, 0, hi, lo, (op2 \div 2) % 2 = 1, op2 % 2 = 1, FALSE, FALSE, br)
+       [] op1 = 4 /\ op2 \div 2 = 6 -> HMUL("SMLALD_T1", "SMLALD", 0, n, m, 0, hi, lo, FALSE, FALSE, op2 % 2 = 1, FALSE, br)
+       [] op1 = 5 /\ op2 \div 2 = 6 -> HMUL("SMLSLD_T1", "SMLSLD", 0, n, m, 0, hi, lo, FALSE, FALSE, op2 % 2 = 1, FALSE, br)
+       [] op1 = 6 /\ op2 = 0 -> MUL("UMLAL_T1", "UMLAL", 0, n, m, 0, hi, lo, FALSE, br)
+       [] op1 = 6 /\ op2 = 6 -> MUL("UMAAL_T1", "UMAAL", 0, n, m, 0, hi, lo, FALSE, br)
+       [] OTHER -> Undef
 
 \* A6.3.7-10 load/store single data item: 1111 100 S U size L Rn Rt ...
 T32LSSingle(w, dx) ==
@@ -513,7 +718,9 @@ T32Decode(w, dx) ==
                   ELSE IF (op2 \div 32) % 2 = 0 THEN T32DPModImm(w) ELSE T32DPPlainImm(w)
     [] op1 = 3 -> IF op2 \div 64 = 1 THEN Unspec("t32-coproc")
                   ELSE IF op2 \div 32 = 0 THEN (IF op2 \div 16 = 1 /\ op2 % 2 = 0 THEN Unspec("t32-advsimd-ls") ELSE T32LSSingle(w, dx))
-                  ELSE Unspec("t32-dpreg-mul")
+                  ELSE IF op2 \div 16 = 2 THEN T32DPReg(w, dx)
+                  ELSE IF op2 \div 8 = 6 THEN T32Mul(w, dx)
+                  ELSE T32LongMul(w, dx)
     [] OTHER -> Unspec("t32-bad-prefix")
 
 -----------------------------------------------------------------------------
